@@ -286,8 +286,35 @@ def agg_longlived(arg):
   return n, okc, bad
 
 
+def startup_rules_files():
+  """Through the relay daemon's real start-up (CarbonRelayOptions.postOptions on a generated carbon.conf): each relay method
+  must be handed the rules file of its kind from the default location CONF_DIR (aggregation-rules.conf for the
+  aggregation-aware methods, relay-rules.conf for rule-based relaying)."""
+  from .. import daemonconf
+  bad = []
+  n = 0
+  for method, key, fname in (('aggregated-consistent-hashing', 'aggregation-rules', 'aggregation-rules.conf'),
+                             ('fast-aggregated-hashing', 'aggregation-rules', 'aggregation-rules.conf'),
+                             ('rules', 'relay-rules', 'relay-rules.conf')):
+    n += 1
+    try:
+      r = daemonconf.effective('carbon-relay', {'RELAY_METHOD': method, 'DESTINATIONS': '127.0.0.1:2004:a'}, keys=[key, 'RELAY_METHOD'])
+    except Exception as e:   # noqa
+      bad.append(('startup:exception', 'carbon-relay start-up with RELAY_METHOD=%s failed: %s' % (method, str(e)[-300:]), {'startup': method}))
+      continue
+    v = r.get(key)
+    if not isinstance(v, str) or not v.endswith('/conf/' + fname):
+      bad.append(('startup:rules-file', 'carbon-relay started with RELAY_METHOD=%s (rules in the default CONF_DIR/%s): settings[%r] is %r, so the '
+                  'router loads no rules and routes every metric by its own name' % (method, fname, key, v), {'startup': method}))
+  return n, bad
+
+
 def run(ctx):
   env.boot()
+  sn, sbad = startup_rules_files()
+  for key, what, rep in sbad:
+    ctx.violation(key, what, rep)
+  ctx.add(startup_cases=sn)
   files = core.seeded_order(relay_files(ctx), ctx.seed)
   subsets = [c for k in range(0, 4) for c in itertools.combinations(DESTS, k)]
   if not ctx.thorough:
@@ -345,6 +372,13 @@ def run(ctx):
 def replay(path):
   body = json.load(open(path))
   rep = body['replay']
+  if 'startup' in rep:
+    n, bad = startup_rules_files()
+    for key, what, _ in bad:
+      print('oracle: [%s] %s' % (key, what))
+    if not bad:
+      print('oracle: holds')
+    return 1 if bad else 0
   if 'sequence' in rep:
     seq = [None if r is None else [tuple(x) for x in r] for r in rep['sequence']]
     n, ok, bad = agg_longlived((seq, rep['cls'], 4, rep.get('epoch', 2100000000.0)))
